@@ -4,8 +4,9 @@
 # 1. patch applies to /repo HEAD, compiles, existing suite matches the baseline (only annotation_count fails)
 # 2. the demonstration fails with the change and passes without it
 # 3. ./check for the given properties on a scratch copy (tools/mutest.sh)
+MT="${MT:-/tmp/mt}"; export MT
 D="$(readlink -f "$1")"; shift
-W=/tmp/mt/repo2
+W=$MT/repo2
 rm -rf $W; git -C /repo worktree prune; git -C /repo worktree add --detach $W HEAD >/dev/null 2>&1
 cd $W
 export CARGO_NET_OFFLINE=true
